@@ -20,7 +20,17 @@ NOT_DECIDED = "std::sync::LazyLock's own implementation (trusted)."
 TRUSTED = ["std::sync::LazyLock once-only initialisation", "rustc auto-trait (Send/Sync) inference and borrow checker"]
 ASSUMPTIONS = ["user-written Engine types are constrained only by the E: Send / E: Sync bounds shown in the witnesses"]
 
-INTERIOR = re.compile(r'\b(Cell|RefCell|UnsafeCell|OnceCell|Atomic\w*|Mutex|RwLock|Condvar|Once|OnceLock|Barrier|LocalKey|ThreadLocal|SyncUnsafeCell|ReentrantLock)\b')
+_INTERIOR = re.compile(r'\b(Cell|RefCell|UnsafeCell|OnceCell|Atomic\w*|Mutex|RwLock|Condvar|Once|OnceLock|Barrier|LocalKey|ThreadLocal|SyncUnsafeCell|ReentrantLock)\b')
+
+
+class _Interior:
+    """type-string test; the iterator adaptor std::iter::Once is not the synchronisation primitive std::sync::Once"""
+    @staticmethod
+    def search(ty):
+        return _INTERIOR.search(re.sub(r'\b(std|core)::iter::(\w+::)*Once\b', 'IterOnce', ty))
+
+
+INTERIOR = _Interior
 BLOCKING = re.compile(r'^std::(thread|sync::(mpsc|Mutex|RwLock|Condvar|Barrier|Once|OnceLock)|io::std(in|out|err)|process|net)\b|^std::sync::(Mutex|RwLock|Condvar|Barrier)<|::(lock|park|join|recv|wait|sleep)$')
 THREADY = re.compile(r'^std::(thread|sync::mpsc)\b|^<std::sync::(Mutex|RwLock|Condvar|Barrier)|^std::sync::(Mutex|RwLock|Condvar|Barrier|Once)\b|std::thread::|::park(_timeout)?$')
 
